@@ -4,7 +4,7 @@ import vlib
 from vlib import Result, log
 
 THEOREMS = ["C09_const_name_legal", "C09_field_name_legal", "C09_type_name_legal", "C09_keywords_covered",
-            "C09_refuted_type_self", "C09_refuted_field_crate", "C09_refuted_field_empty", "C09_refuted_field_raw",
+            "C09_refuted_type_self", "C09_field_crate_super_repaired", "C09_refuted_field_empty", "C09_refuted_field_raw",
             "C09_refuted_fields_nodup", "C09_nonvacuous"]
 TARGETS = ["Props/C09.v", "Extract/C09.v"]
 PROBE = os.path.join(vlib.CACHE, "ident-target", "debug", "ident_probe")
@@ -61,7 +61,7 @@ def name_pool(tier, seed):
     return out
 
 
-FIELD_KNOWN_RESULTS = {"_", "r#crate", "r#super"}
+FIELD_KNOWN_RESULTS = {"_"}
 
 
 def sanitiser_part(res, exe, probe, tier, seed):
@@ -98,7 +98,7 @@ def sanitiser_part(res, exe, probe, tier, seed):
                     viol.append((n, f"type name {t!r} is not a legal identifier"))
             if not lf:
                 if f in FIELD_KNOWN_RESULTS:
-                    known_hits.add({"_": "field-underscore", "r#crate": "field-crate-super", "r#super": "field-crate-super"}[f])
+                    known_hits.add({"_": "field-underscore"}[f])
                 elif n.startswith("r#") and f == n:
                     known_hits.add("field-raw-passthrough")
                 else:
